@@ -16,7 +16,7 @@ import random
 from .. import common
 from ..common import Ctx, tlc, tlc_ok, pmap, mc_module, workdir, rmtree, tla_val
 from ..proj import proj
-from .. import ptrace
+from .. import ptrace, gentrace
 
 # kind -> (text, filename, leaves, sensitive)
 PALETTE = {
@@ -34,6 +34,9 @@ PALETTE = {
     "deep_fail": ("typedef int V; void f(V a) { if (1) { while (2) { V * b; (", "l.c", {"scopes", "typedefs", "buffer"}, {"scopes", "typedefs"}),
     "error_line_col": ("\n\n   int x = ;", "m.c", {"line", "buffer"}, {"line", "file"}),
     "sizeof_T": ("int s = sizeof(T); int u = sizeof(U);", "n.c", {"typedefs", "buffer"}, {"typedefs"}),
+    "starts_with_T": ("T first; int after;", "o.c", {"typedefs", "buffer"}, {"typedefs"}),
+    "starts_with_rbrace": ("} int x;", "p.c", {"buffer"}, {"scopes"}),
+    "starts_with_V_use": ("V * w;", "q.c", {"buffer"}, {"typedefs", "scopes"}),
 }
 COMPONENTS = {"scopes", "typedefs", "pending", "file", "line", "buffer"}
 
@@ -220,17 +223,45 @@ def reuse_lexer_generator(ctx, rnd, tier):
         except Exception:
             pass
     asts.append(c_parser.CParser().parse("struct S { int a; struct { int b; } c; }; void f(void) { if (1) { while (2) { x; } } }", "x.c"))
-    for _ in range(200 if tier == "quick" else 3000):
-        seq = [rnd.choice(asts) for _ in range(rnd.randint(2, 4))]
-        g = c_generator.CGenerator()
-        for i, a in enumerate(seq):
+    # any node is a legitimate argument of visit(): whole units, definitions, statements, expressions, types
+    pool = []
+    for a in asts:
+        st = [a]
+        while st:
+            x = st.pop()
+            pool.append(x)
+            st.extend(c for _, c in x.children())
+    pool = [x for x in pool if type(x).__name__ not in ("EllipsisParam",)]
+    traces, seqs = [], []
+    for _ in range(300 if tier == "quick" else 4000):
+        rp = rnd.random() < 0.3
+        seq = [rnd.choice(asts) if rnd.random() < 0.4 else rnd.choice(pool) for _ in range(rnd.randint(2, 5))]
+        g = c_generator.CGenerator(reduce_parentheses=rp)
+        tr, outs = gentrace.record(g, seq)
+        traces.append(tr)
+        seqs.append([type(x).__name__ for x in seq])
+        for i, (a, got) in enumerate(zip(seq, outs)):
             n += 1
-            if g.visit(a) != c_generator.CGenerator().visit(a):
-                ctx.fail("reused CGenerator differs from a fresh one on visit %d" % (i + 1), dict(kind="generator"))
+            try:
+                want = c_generator.CGenerator(reduce_parentheses=rp).visit(a)
+            except Exception as x:
+                want = x
+            if isinstance(want, Exception) or isinstance(got, Exception):
+                if type(want) is not type(got):
+                    ctx.fail("reused CGenerator: visit %d of %s gives %r, a fresh one %r" % (i + 1, seqs[-1], got, want),
+                             dict(kind="generator"))
+                break      # the property speaks about reuse after successful visits
+            if got != want:
+                ctx.fail("reused CGenerator differs from a fresh one on visit %d of %s" % (i + 1, seqs[-1]), dict(kind="generator"))
                 break
             if g.indent_level != 0:
                 ctx.fail("CGenerator.indent_level is %d after a successful top-level visit" % g.indent_level, dict(kind="generator"))
                 break
+    acc, deep, res = gentrace.validate(traces, "C12 generator reuse")
+    ctx.add_tlc(res, "GenTrace on reused generators (BlockRestores, VisitRestores, ReuseFresh)")
+    for i, tr in enumerate(traces, 1):
+        if i not in acc:
+            ctx.fail("generator events of visits %s: %s" % (seqs[i - 1], gentrace.explain(tr, deep.get(i))), dict(kind="generator"))
     ctx.count(n, traces=n)
     ctx.note("reused_lexer_and_generator_calls", n)
 
